@@ -80,7 +80,9 @@ func (m *Module) String() string {
 func (m *Module) WriteTo(w io.Writer) (n int64, err error) {
 	fw := &fmtWriter{w: w}
 	// Assign global IDs.
-	if err := m.AssignGlobalIDs(); err != nil {
+	// Printing renumbers: IDs cached by an earlier print or by the parser (which
+	// numbers in textual order) may differ from the output order.
+	if err := m.assignGlobalIDs(false); err != nil {
 		panic(fmt.Errorf("unable to assign globals IDs of module; %v", err))
 	}
 	// Assign metadata IDs.
@@ -323,8 +325,16 @@ func (u *UseListOrderBB) String() string {
 
 // ### [ Helper functions ] ####################################################
 
-// AssignGlobalIDs assigns IDs to unnamed global variables.
+// AssignGlobalIDs assigns IDs to unnamed global variables. An unnamed global
+// which already has a non-zero ID that differs from its position is reported as
+// an error.
 func (m *Module) AssignGlobalIDs() error {
+	return m.assignGlobalIDs(true)
+}
+
+// assignGlobalIDs assigns IDs to unnamed global variables. If validate is
+// false, stale IDs are overwritten instead of reported.
+func (m *Module) assignGlobalIDs(validate bool) error {
 	m.mu.Lock()
 	defer m.mu.Unlock()
 	verifTrace("lock", m, 0, 0)
@@ -332,7 +342,7 @@ func (m *Module) AssignGlobalIDs() error {
 	id := int64(0)
 	setName := func(n namedVar) error {
 		if n.IsUnnamed() {
-			if n.ID() != 0 && id != n.ID() {
+			if validate && n.ID() != 0 && id != n.ID() {
 				want := id
 				got := n.ID()
 				return errors.Errorf("invalid global ID, expected %s, got %s", enc.GlobalID(want), enc.GlobalID(got))
